@@ -2,7 +2,7 @@
 From Coq Require Import Reals ZArith List Bool Lra Lia String.
 From PyLib Require Import PyVal PyBuiltins Ideal Whnf PyEval.
 From Gen Require Import M_base M_Angle M_Epoch M_Interpolation M_Coordinates M_Earth.
-From Proofs.C18 Require Import C18_tac C18_spec C18_bridge.
+From Proofs.C18 Require Import C18_tac C18_spec C18_defs.
 Import ListNotations.
 Open Scope R_scope.
 
